@@ -531,6 +531,14 @@ func checkPasswordDispatch(c *km.Ctx, s *km.Sem) {
 			cl, idx := callRes(v)
 			ok := cl != nil && idx == 0 && km.CalleeFull(cl.Common()) == authutilPkg+".CheckHtpasswdUserPassword" && km.Unwrap(cl.Common().Args[0]) == ssa.Value(km.ParamAt(fn, 1))
 			r.Add("R-C07-4", km.FuncName(fn), "verdict returned", posOf(c, rc.Ret), "CheckHtpasswdUserPassword(user param, …) result", km.ValStr(v), ok)
+			// ... judged on the password file as it is now: the content handed to the verifier was read from the
+			// file in this very call (a copy remembered from an earlier request keeps a changed or removed
+			// password working)
+			if ok {
+				src, si := callRes(km.Unwrap(cl.Common().Args[2]))
+				fresh := src != nil && si == 0 && (km.CalleeFull(src.Common()) == "io/ioutil.ReadFile" || km.CalleeFull(src.Common()) == "os.ReadFile") && src.Parent() == fn
+				r.Add("R-C07-4", km.FuncName(fn), "password file read for this request", posOf(c, cl), "the content checked is the result of ReadFile in the same call", clipS(km.ValStr(cl.Common().Args[2]), 100), fresh)
+			}
 		}
 	}
 }
